@@ -71,11 +71,11 @@ func reachableIn(root *ssa.Function, pkgs ...string) []*ssa.Function {
 
 func runC11(c *engine.Ctx) {
 	r1 := c.Rule("R1", "per wire struct: fields written by the encoder = fields read by the decoder = all fields", 5)
-	r2 := c.Rule("R2", "slot agreement between encoder accessors and decoder constructors; request-type branches", 8)
-	r3 := c.Rule("R3", "optional fields are omitted exactly when they equal the decoder's default", 4)
+	r2 := c.Rule("R2", "slot agreement between encoder accessors and decoder constructors; request-type branches", 4)
+	r3 := c.Rule("R3", "optional fields are omitted exactly when they equal the decoder's default", 2)
 	r4 := c.Rule("R4", "nil extension payload <-> nil map value, both directions", 2)
 	r5 := c.Rule("R5", "each extension codec's encoder builds the node kind its decoder consumes", 3)
-	r6 := c.Rule("R6", "framing: length prefix covers exactly the payload; decoder bounded by the maximum message size", 3)
+	r6 := c.Rule("R6", "framing: length prefix covers exactly the payload; decoder bounded by the maximum message size", 2)
 
 	toNet := c.P.Func("message/v2", "MessageHandler", "ToNet")
 	fromR := c.P.Func("message/v2", "MessageHandler", "FromMsgReader")
